@@ -61,6 +61,8 @@ type Contract struct {
 	Unroll    map[int]int
 	Props     []string
 	Callsites []*CallsiteReq
+	Implicit  bool
+	Construction bool // called only before the receiver is shared: guarded-field accesses are exempt
 }
 
 type SpecFunc struct {
@@ -301,6 +303,8 @@ func (ss *SpecSet) LoadContractFile(path string, pkgPath string) error {
 			cur.Trusted = true
 		case "inline":
 			cur.Inline = true
+		case "construction":
+			cur.Construction = true
 		case "pure-function":
 			// in-repository function whose result is a deterministic, heap-independent function of its arguments
 			// (assumption, listed); callers and specs may use it as an uninterpreted function constrained by its ensures
